@@ -22,7 +22,9 @@ type sysDef struct {
 	Alphabet []string
 	Depth    int
 	Workers  int
-	Exec     func(worker int, hist []string, mode string) *execResult
+	// Exec runs st.hist+suffix.  literal=false allows the system to start from a
+	// rebuilt copy of st (st.snap) instead of replaying st.hist.
+	Exec     func(worker int, st *stateRec, suffix []string, mode string, literal bool) *execResult
 	Deadline time.Time // zero = none; reaching it stops the exploration (exhaustive:false)
 	MergeObs  bool // merge oracle: re-expand, per key, the first alternative history that ends in the observer letter
 	MergeAlts int  // merge oracle: and this many other alternative histories per key
@@ -37,6 +39,8 @@ type poolCase struct {
 }
 
 type stateRec struct {
+	key   string
+	snap  interface{} // system-specific recipe for rebuilding the state (may be nil)
 	hist  []string
 	depth int
 	obs   []string // per letter: digest of (observation, successor key) from the representative
@@ -118,10 +122,10 @@ func explore(sys sysDef, rep *reporter) bfsStats {
 	for i := 0; i < sys.Workers; i++ {
 		wk <- i
 	}
-	exec := func(hist []string, mode string) *execResult {
+	exec := func(s *stateRec, suffix []string, mode string, literal bool) *execResult {
 		w := <-wk
 		defer func() { wk <- w }()
-		r := sys.Exec(w, hist, mode)
+		r := sys.Exec(w, s, suffix, mode, literal)
 		atomic.AddInt64(&st.Executions, 1)
 		atomic.AddInt64(&st.Reaps, int64(r.Reaps))
 		atomic.AddInt64(&st.Blocks, int64(r.Blocks))
@@ -131,12 +135,12 @@ func explore(sys sysDef, rep *reporter) bfsStats {
 	// history are executed twice; keys and observations must agree.
 	probe := [][]string{{}, {sys.Alphabet[0], "O", sys.Alphabet[len(sys.Alphabet)/2], sys.Alphabet[0]}}
 	for _, h := range probe {
-		a, b := exec(h, "step"), exec(h, "step")
+		a, b := exec(&stateRec{hist: h}, nil, "step", true), exec(&stateRec{hist: h}, nil, "step", true)
 		if a.Key != b.Key || a.Obs != b.Obs {
 			core.Fatal("%s/%s: execution of %v is not deterministic:\n %s | %s\n %s | %s", sys.Pool, sys.Cfg, h, a.Key, a.Obs, b.Key, b.Obs)
 		}
 	}
-	root := exec(nil, "step")
+	root := exec(&stateRec{}, nil, "step", true)
 	for _, f := range root.Findings {
 		rep.report(sys.Pool, sys.Cfg, "step", nil, f)
 	}
@@ -144,7 +148,7 @@ func explore(sys sysDef, rep *reporter) bfsStats {
 		return st
 	}
 	states := map[string]*stateRec{}
-	r0 := &stateRec{hist: nil, depth: 0}
+	r0 := &stateRec{hist: nil, depth: 0, key: root.Key, snap: root.Snap}
 	states[root.Key] = r0
 	st.States = 1
 	st.PerDepth = []int{1}
@@ -177,11 +181,14 @@ func explore(sys sysDef, rep *reporter) bfsStats {
 				return
 			}
 			if t.letter < 0 {
-				t.res = exec(t.hist, "drain")
+				t.res = exec(t.st, nil, "drain", true) // literal: also re-validates the state's key
 				return
 			}
-			h := append(append(make([]string, 0, len(t.hist)+1), t.hist...), sys.Alphabet[t.letter])
-			t.res = exec(h, "step")
+			if t.merge {
+				t.res = exec(&stateRec{hist: t.hist}, []string{sys.Alphabet[t.letter]}, "step", true)
+				return
+			}
+			t.res = exec(t.st, []string{sys.Alphabet[t.letter]}, "step", false)
 		})
 		var next []*stateRec
 		if skipped > 0 {
@@ -217,6 +224,9 @@ func explore(sys sysDef, rep *reporter) bfsStats {
 				st.Drains++
 				for _, f := range t.res.Findings {
 					rep.report(sys.Pool, sys.Cfg, "drain", t.hist, f)
+				}
+				if len(t.res.Findings) == 0 && t.res.Key != t.st.key {
+					core.Fatal("%s/%s: the literal replay of %v reaches key\n  %s\nbut the state was recorded with key\n  %s", sys.Pool, sys.Cfg, t.hist, t.res.Key, t.st.key)
 				}
 				continue
 			}
@@ -261,7 +271,7 @@ func explore(sys sysDef, rep *reporter) bfsStats {
 				}
 				continue
 			}
-			ns := &stateRec{hist: h, depth: d + 1}
+			ns := &stateRec{hist: h, depth: d + 1, key: t.res.Key, snap: t.res.Snap}
 			states[t.res.Key] = ns
 			next = append(next, ns)
 			st.States++
